@@ -584,7 +584,7 @@ fn jcollect(v: &Value, path: &mut Vec<JSeg>, arrays: &mut Vec<Vec<JSeg>>, nums: 
 }
 
 /// object keys the mutator never descends into
-const FROZEN_KEYS: [&str; 10] = ["cfgs", "observers", "skip_gc", "utf16", "cleanup", "scope", "off", "n", "peers", "Num"];
+const FROZEN_KEYS: [&str; 11] = ["cfgs", "observers", "client", "skip_gc", "utf16", "cleanup", "scope", "off", "n", "peers", "Num"];
 
 /// 1–3 structural mutations: remove / duplicate / swap / truncate elements of a list (steps,
 /// operations, schedules …), insert an element or graft a subtree taken from the same place of a
